@@ -17,8 +17,15 @@ SmallInitCtxs == {[k \in Keys |-> IF k \in S THEN Num(CtxVal(k)) ELSE Absent] :
                      S \in {{}, {"factor"}, {"a"}, {"value", "addend"}, {"factor", "a", "b"}, FreeKeys}} \cup {ZeroCtx}
 \* with a None-valued context (execution-level modules only: static inspection reasons about keys,
 \* and "rename/delete of a key holding None is a no-op" is left outside C02)
-AllInitCtxsN == AllInitCtxs \cup {NullCtx}
-SmallInitCtxsN == SmallInitCtxs \cup {NullCtx}
+\* list-valued context entries: a short list, an empty one, and a LONG one (400 numbers: anything that is summarised,
+\* truncated or sampled by length shows here)
+LongList == [i \in 1..400 |-> i]
+ListCtxsL == {[k \in Keys |-> IF k = "a" THEN List(<<2, 3>>) ELSE IF k = "factor" THEN Num(3) ELSE Absent],
+              [k \in Keys |-> IF k = "a" THEN List(<<>>) ELSE Absent]}
+LongListCtx == [k \in Keys |-> IF k = "a" THEN List(LongList) ELSE IF k = "value" THEN Num(5) ELSE Absent]
+AllInitCtxsN == AllInitCtxs \cup {NullCtx} \cup ListCtxsL
+SmallInitCtxsN == SmallInitCtxs \cup {NullCtx} \cup ListCtxsL
+AllInitCtxsNL == AllInitCtxsN \cup {LongListCtx}       \* single-node programs only (TraceStream.full1)
 ListCtxs == {[k \in Keys |-> IF k = "a" THEN List(<<2, 3>>) ELSE IF k = "factor" THEN Num(3) ELSE Absent],
              [k \in Keys |-> IF k = "a" THEN List(<<>>) ELSE Absent]}
 
